@@ -137,6 +137,10 @@ def gen_cases(rng, tier):
         if rng.chance(0.3):
             # rows reach the step with their keys in another order than the schema lists the fields (round 8)
             c['keyorder'] = rng.pick(['rotate', 'reverse'])
+        if k in ('select', 'delete') and rng.chance(0.2):
+            c['oneshot'] = True
+        if k in ('select', 'delete') and not c['two'] and rng.chance(0.15):
+            c['again'] = True
         if k in ('select', 'delete', 'rename') and rng.chance(0.25):
             # the same specification was used a moment ago, in the same process, with the other reading of the names
             # (regular expressions / literal names): nothing of that may carry over
@@ -159,6 +163,14 @@ def gen_cases(rng, tier):
         cases.append({'kind': 'rename', 'names': names, 'rows': rows_enc(rows), 'types': types, 'two': False, 'regex': True, 'map': [['(a|c)', r'n_\1']], 'keyorder': ko})
         cases.append({'kind': 'delete', 'names': names, 'rows': rows_enc(rows), 'types': types, 'two': False, 'regex': False, 'fields': ['b'], 'keyorder': ko})
         cases.append({'kind': 'select', 'names': names, 'rows': rows_enc(rows), 'types': types, 'two': False, 'regex': False, 'fields': ['c', 'a'], 'keyorder': ko})
+    # systematically: a one-shot iterable of field names with two selected resources; one step object at two positions
+    for kind in ('delete', 'select'):
+        names = ['a', 'b', 'c']
+        rows = [{'a': 1, 'b': 'x', 'c': True}, {'a': 2, 'b': 'y', 'c': False}]
+        types = {'a': 'integer', 'b': 'string', 'c': 'boolean'}
+        cases.append({'kind': kind, 'names': names, 'rows': rows_enc(rows), 'types': types, 'two': False, 'regex': False, 'fields': ['b', 'a'] if kind == 'select' else ['b'],
+                      'oneshot': True, 'narrow2': 'c'})
+        cases.append({'kind': kind, 'names': names, 'rows': rows_enc(rows), 'types': types, 'two': False, 'regex': True, 'fields': ['[ab]'], 'again': True})
     # systematically: sum and join over two columns, with a second selected resource that lacks one of them
     for op, w in (('sum', ''), ('join', '-')):
         for drop in ('c1', 'c2'):
@@ -185,10 +197,12 @@ def input_rows(case):
 def step_of(case):
     k = case['kind']
     res = 't' if case['two'] else None
+    # the field list handed over as a one-shot iterable (a generator, a map object) instead of a list
+    oneshot = (lambda l: (x for x in l)) if case.get('oneshot') else list
     if k == 'select':
-        return DF.select_fields(list(case['fields']), resources=res, regex=case['regex'])
+        return DF.select_fields(oneshot(case['fields']), resources=res, regex=case['regex'])
     if k == 'delete':
-        return DF.delete_fields(list(case['fields']), resources=res, regex=case['regex'])
+        return DF.delete_fields(oneshot(case['fields']), resources=res, regex=case['regex'])
     if k == 'rename':
         return DF.rename_fields(dict((a, b) for a, b in case['map']), resources=res, regex=case['regex'])
     if k == 'computed':
@@ -233,8 +247,15 @@ def run_impl(case):
         except Exception:
             pass
     pre = {'rotate': [rotate_keys], 'reverse': [reverse_keys]}.get(case.get('keyorder'), [])
-    # (also read with all resources taken before any row is read)
-    out = run_stream(res, pre + [step_of(case)], collect=True)
+    if case.get('again'):
+        # the same step object a second time, further down the same chain, behind a step that renames every field and one
+        # that names them back: the chain as a whole does what the step does once
+        st = step_of(case)
+        there = DF.rename_fields(dict((n, 'tmp_%d' % i) for i, n in enumerate(case['names'])), regex=False)
+        out = run_stream(res, pre + [st, there, DF.rename_fields(dict(('tmp_%d' % i, n) for i, n in enumerate(case['names'])), regex=False), st], collect=False, rerun=not case.get('oneshot'))
+    else:
+        # (also read with all resources taken before any row is read; a step built over a one-shot iterable is run once)
+        out = run_stream(res, pre + [step_of(case)], collect=True) if not case.get('oneshot') else run_stream(res, pre + [step_of(case)], rerun=False)
     if 'error' in out:
         return {'error': out['error'], 'exc': out['exc']}
     r = {'rows': rows_enc(out['rows'][0]), 'fields': field_names(out['dp'], 0),
